@@ -5,7 +5,9 @@ import CodeLimit.Gen.Logic
 
 `Gen/Logic.lean` is regenerated from the Python source on every run; these lemmas prove that
 the comparisons used by `Model/Scopes.lean` (`TokenRange.lt/contains/overlaps`, `Scope.contains`,
-the candidate test of `_get_nearest_block`, the two index tests of `_scope_tokens`) are exactly
+the candidate test of `_get_nearest_block`, the two index tests of `_scope_tokens`, the end
+location of `scan_file`, the two tests of Python's block search), by `Model/Token.lean`
+(`Balanced.accept`) and by `Model/Pattern.lean` (the pre-emption guards of `find_all`) are exactly
 the regenerated ones. An off-by-one edit of any of them in the source breaks these proofs (and
 with them every property file that imports this module) even if no generated input happens to
 distinguish the two versions.
@@ -36,5 +38,63 @@ token exactly when the source's `if` test holds -/
 theorem scope_tokens_tie (i : Nat) (c : Range) :
     (decide (i ≥ c.e) = true ↔ scope_tokens_pops i c.e) ∧ (decide (i < c.s) = true ↔ scope_tokens_keeps i c.s) := by
   unfold scope_tokens_pops scope_tokens_keeps; simp <;> omega
+
+/-! ### `Balanced.accept` (`Model/Token.lean: acceptTok`) -/
+
+theorem getDepth_setDepth_same (ds : Depths) (p : Pred) (d : Int) : getDepth (setDepth ds p d) p = d := by
+  simp [getDepth, setDepth]
+
+/-- on a `Balanced` predicate the model's `acceptTok` accepts exactly when the source's
+`Balanced.accept` does, and leaves the predicate at the depth the source leaves it at; the
+inputs of the generated definition are what `left.accept(token)` / `right.accept(token)` return
+and the current depth -/
+theorem acceptTok_balanced_tie (l r : Pred) (ds : Depths) (t : Tok) :
+    (acceptTok (.balanced l r) ds t).1 =
+      (balanced_accept (l.eval t) (r.eval t) (getDepth ds (.balanced l r))).1 ∧
+    getDepth (acceptTok (.balanced l r) ds t).2 (.balanced l r) =
+      (balanced_accept (l.eval t) (r.eval t) (getDepth ds (.balanced l r))).2 := by
+  simp only [acceptTok]
+  generalize l.eval t = a
+  generalize r.eval t = b
+  generalize hd : getDepth ds (.balanced l r) = d
+  unfold balanced_accept
+  cases a <;> cases b <;> simp only [Bool.false_eq_true, if_false, if_true, getDepth_setDepth_same] <;> grind
+
+/-! ### the pre-emption guards of `matcher.find_all` (`Model/Pattern.lean: procOne, finalize`) -/
+
+/-- the test `p.start < lastEnd ms` of `procOne` (guard inside the loop) and of `finalize`
+(guard after the loop) is the source's `pattern.start < fs.matches[-1].end` -/
+theorem find_all_guard_tie (start lastEnd : Nat) :
+    (decide (start < lastEnd) = true ↔ find_all_preempts start lastEnd) ∧
+    (decide (start < lastEnd) = true ↔ find_all_preempts_final start lastEnd) := by
+  unfold find_all_preempts find_all_preempts_final
+  simp only [decide_eq_true_eq]
+  omega
+
+/-! ### end location of a measurement (`Model/Scopes.lean: measure`) -/
+
+/-- `measure` computes the end location from `n` = number of newlines in the last token's text
+(so `value.split("\n")` has `n + 1` pieces) and `last` = length of the text after the last
+newline, exactly as the source does -/
+theorem end_location_tie (line col vlen n last : Nat) :
+    scan_end_location line col vlen (n + 1) last =
+      (((if n = 0 then (line, col + vlen) else (line + n, last + 1) : Nat × Nat).1 : Int),
+       ((if n = 0 then (line, col + vlen) else (line + n, last + 1) : Nat × Nat).2 : Int)) := by
+  unfold scan_end_location
+  by_cases h : n = 0
+  · subst h; simp
+  · simp only [h, if_false]
+    split <;> first | (refine Prod.ext ?_ ?_ <;> simp <;> omega) | omega
+
+/-! ### Python blocks (`Model/Scopes.lean: blockLineIndices`) -/
+
+/-- the two tests of the inner loop of `Python.extract_blocks`: `line_nr <= header_line_nr` stops
+the search; on a later line `line_indentation > header_indentation` decides membership -/
+theorem python_block_tie (ln lc hl hc : Nat) :
+    (decide (ln ≤ hl) = true ↔ python_line_stops ln hl) ∧
+    (hl < ln → (decide (lc > hc) = true ↔ python_line_in_block ln lc hl hc)) := by
+  unfold python_line_stops python_line_in_block
+  simp only [decide_eq_true_eq]
+  omega
 
 end CL
